@@ -273,6 +273,21 @@ def table_lookup(n, s, x):
     return bisect_right(t, x) - 1
 
 
+def grow_rows(n):
+    t = [[] for i in range(n)]
+    for i in range(n):
+        t[i].append(7)
+    return t
+
+
+def grow_alias(n):
+    t = [[] for i in range(2)]
+    r = t[0]
+    for i in range(n):
+        r.append(7)
+    return t
+
+
 def pick(i):
     return i
 
@@ -410,6 +425,12 @@ NEGATIVE = {
                         'loops': {0: {'inv': ['len(t) == _it + 1', 'forall(lambda u: implies(0 <= u and u <= _it, t[u] == s + u), lambda u: t[u])']}},
                         'ensures': ['result[0] == s', 'forall(lambda u: not (0 <= u and u <= n) or result[u] == s + u + 1, lambda u: result[u])']},
     (C, 'first_free'): {'params': {'n': 'int'}, 'raises': {}, 'returns': 'int', 'ensures': ['result == n + 2']},
+    # the shape of a real hole found on 2026-10-03: t[i].append(v) inside a loop did not count as a change of t, so the loop
+    # "preserved" whatever was true of the table before it; same through an alias of a row bound before the loop
+    (C, 'grow_rows'): {'params': {'n': 'int'}, 'requires': ['n >= 1'], 'raises': {}, 'returns': 'list2',
+                       'loops': {0: {'inv': ['len(t) == n', 'len(t[0]) == 0']}}, 'ensures': ['len(result[0]) == 0']},
+    (C, 'grow_alias'): {'params': {'n': 'int'}, 'requires': ['n >= 1'], 'raises': {}, 'returns': 'list2',
+                        'loops': {0: {'inv': ['len(t) == 2', 'len(t[0]) == 0']}}, 'ensures': ['len(result[0]) == 0']},
     # a callee known only through an under-determined contract, called once per element of a comprehension: the results are
     # different values per index (one shared fresh value for all indices would prove result[0] == result[1])
     (C, 'pick'): {'assumed': 'under-determined on purpose', 'params': {'i': 'int'}, 'returns': 'int', 'ensures': ['0 <= result or result <= 0']},
